@@ -171,3 +171,27 @@ Example C19_example_fresh_blobs : forall i j ci cj Bi Bj, i <> j ->
     kid_key_info (b_key_identifier bi) <> kid_key_info (b_key_identifier bj) /\
     b_enc_cek bi <> b_enc_cek bj /\ b_enc_content bi <> b_enc_content bj /\ Bi <> Bj.
 Proof. exact ex_fresh_blobs. Qed.
+
+(* ---- the encrypt-side source tied to the model (flows).  WR c rnd_cek rnd_iv rnd_kek time_ns is the world in which
+   AESGCM.generate_key(256), os.urandom(12) and the os.urandom inside key.new_kek() return these values (Flow/World_e2e.v):
+   the regenerated cek_generate makes exactly the first two draws, of these sizes and in this order, and the regenerated
+   _encrypt_blob is Model/Client.v encrypt_blob of the three draws. *)
+From V Require Import Prelude.PyAst Prelude.PyWorld gen.F_e2e Flow.World_e2e Proofs.Flow_e2e_enc.
+Theorem C19_flow_cek_encrypt : forall c fuel a p kek v,
+  run (W c) fuel k_flow_cek_encrypt [VO (OOid a); vopt_bytes p; VB kek; VB v] = (let* b := cek_encrypt c a p kek v in Ok (VB b)).
+Proof. exact flow_cek_encrypt. Qed.
+Print Assumptions C19_flow_cek_encrypt.
+Theorem C19_flow_content_encrypt : forall c fuel a p cek v,
+  run (W c) fuel k_flow_content_encrypt [VO (OOid a); vopt_bytes p; VB cek; VB v] = (let* b := content_encrypt c a p cek v in Ok (VB b)).
+Proof. exact flow_content_encrypt. Qed.
+Print Assumptions C19_flow_content_encrypt.
+Theorem C19_flow_cek_generate : forall c rnd_cek rnd_iv rnd_kek time_ns fuel a,
+  run (WR c rnd_cek rnd_iv rnd_kek time_ns) fuel k_flow_cek_generate [VO (OOid a)]
+  = (let* (k, iv) := cek_generate a rnd_cek rnd_iv in Ok (VT [VB k; VB iv])).
+Proof. exact flow_cek_generate. Qed.
+Print Assumptions C19_flow_cek_generate.
+Theorem C19_flow_encrypt_blob : forall c rnd_cek rnd_iv rnd_kek time_ns fuel data key sid,
+  run (WR c rnd_cek rnd_iv rnd_kek time_ns) fuel k_flow_encrypt_blob [VB data; VO (OEnv key); VO (OSid sid)]
+  = (let* b := encrypt_blob c rnd_cek rnd_iv rnd_kek data key sid in Ok (VB b)).
+Proof. exact flow_encrypt_blob. Qed.
+Print Assumptions C19_flow_encrypt_blob.
